@@ -191,6 +191,11 @@ def k_indices(run, case):
     rng = run.rng(case)
     kind = STAMP_KINDS[rng.integers(len(STAMP_KINDS))]
     t1, t2, max_diff, offset, exact = make_stamps(rng, kind, {"quick": 120, "thorough": 600}[run.tier])
+    if rng.random() < .4:
+        # column views of a 2-D matrix, which is what the file readers hand over
+        m1 = np.column_stack([t1, t1 * 0 + 1.0])
+        m2 = np.column_stack([t2, t2 * 0 + 2.0])
+        t1, t2 = m1[:, 0], m2[:, 0]
     b1, b2 = t1.copy(), t2.copy()
     out = contracts.outcome_of(sync.matching_time_indices, t1, t2, max_diff, offset)
     run.seen(case, core.digest(t1, t2, max_diff, offset, "idx"), cls=["indices:" + kind],
